@@ -214,8 +214,36 @@ class Agg:
                            "eval_rule: the body is evaluated iff there is no `when` or its conditions are PASS; otherwise the rule is "
                            "SKIP; the rule status is the body status; RuleCondition / RuleCheck records carry those statuses")
         if c:
-            c["reproduced"] = False
+            c["replay"] = self.replay_rule_when(c)
+            c["reproduced"] = c["replay"].get("reproduced", False)
             self.candidates.append(c)
+
+    def replay_rule_when(self, cand):
+        """rule-level when whose conjunction is PASS / FAIL / SKIP (a filter that selects nothing, non-empty operator)
+        x body PASS / FAIL: the rule is the body's status iff the guard is PASS, SKIP otherwise; file status and exit follow"""
+        exe = self.cli()
+        if not exe:
+            return {"reproduced": False, "note": "native build failed"}
+        conds = {"PASS": "a == 1", "FAIL": "a == 2", "SKIP": "L[ x == 9 ].y == 2"}
+        bodies = {"PASS": "a == 1", "FAIL": "a == 2"}
+        tried = []
+        for c, ctext in conds.items():
+            for b, btext in bodies.items():
+                rules = f"rule r when {ctext} {{\n  {btext}\n}}\n"
+                rc, rep, err = self.run_structured(exe, rules, ['{"a":\n 1, "L": [ {"x": 1, "y": 2} ]}\n'])
+                exp = b if c == "PASS" else "SKIP"
+                if not (rep and isinstance(rep, list) and rep):
+                    tried.append({"guard": c, "body": b, "ok": None, "note": "no report (recipe did not run)", "exit": rc})
+                    continue
+                r = rep[0]
+                got = "PASS" if "r" in r.get("compliant", []) else ("SKIP" if "r" in r.get("not_applicable", []) else "FAIL")
+                exp_rc = 19 if exp == "FAIL" else 0
+                ok = got == exp and r.get("status") == exp and rc == exp_rc
+                tried.append({"guard": c, "body": b, "ok": ok})
+                if not ok:
+                    return {"reproduced": True, "rules_file": rules, "expected_rule_status": exp, "observed_rule_status": got,
+                            "observed_file_status": r.get("status"), "exit": rc, "expected_exit": exp_rc}
+        return {"reproduced": False, "tried": tried}
 
     # ------------------------------------------------------------------------------------------
     def eval_when_condition_block(self):
@@ -619,7 +647,8 @@ class Agg:
     def cli(self):
         env = dict(os.environ)
         env["CARGO_NET_OFFLINE"] = "true"
-        env["CARGO_TARGET_DIR"] = os.path.join(os.path.dirname(self.src), "native-target")
+        base = os.path.basename(self.src.rstrip("/"))
+        env["CARGO_TARGET_DIR"] = os.path.join(os.path.dirname(self.src.rstrip("/")), "native-target" if base == "src" else "native-target-" + base)
         env.pop("RUSTUP_TOOLCHAIN", None)
         b = subprocess.run(["cargo", "build", "--offline", "-p", "cfn-guard", "--bin", "cfn-guard"], cwd=self.src, env=env,
                            stdout=subprocess.PIPE, stderr=subprocess.STDOUT, text=True, timeout=1800)
